@@ -6,12 +6,10 @@
    every case (stage S1) and dumps all (inp, res) pairs; the driver executes every case against the real
    classes and compares with res (stage S2).
 
-   The text of codon_tables.txt comes in through the environment: X01_TEXT names a JSON file holding the
-   lines of the file as arrays of one-character strings (written by the driver from the file biotite
-   itself reads).  Synthetic table files are rendered by this module (Render) and handed to the driver by
-   the family "text"; codon tables and argument variants are referred to by name in the cases, the family
-   "variants" publishes them. *)
-EXTENDS Codon, Json, IOUtils
+   The text of codon_tables.txt, the synthetic table files, tables and argument variants are defined in
+   CodonUniverse.tla.  Synthetic table files are handed to the driver by the family "text"; codon tables and
+   argument variants are referred to by name in the cases, the family "variants" publishes them. *)
+EXTENDS CodonUniverse
 
 CONSTANTS MaxLen4,     \* every string over A C G T of length 0..MaxLen4 is translated with every table of Tables4
           MaxLen3,     \* every string over A G T of length MaxLen4+1..MaxLen3 with the default table
@@ -22,154 +20,6 @@ CONSTANTS MaxLen4,     \* every string over A C G T of length 0..MaxLen4 is tran
 
 VARIABLES inp, res, phase
 vars == <<inp, res, phase>>
-
-RealText == JsonDeserialize(IOEnv.X01_TEXT)
-
-(* ---------------------------------------------------------------- tables and argument variants *)
-W(a, b, c) == <<a, b, c>>
-\* synthetic tables without relation to biology: "odd" has stop codons that are start codons, start codons
-\* that do not code for M, and the symbols B Z X; "nostop" has no stop codon at all
-SynTables ==
-  [odd    |-> [aa |-> [k \in 1..64 |-> IF (k - 1) % 7 = 3 THEN Stop ELSE ProtSyms[(((k - 1) * 5 + 2) % 23) + 1]],
-               starts |-> <<WordNum(W("A", "A", "T")), WordNum(W("T", "A", "A")), WordNum(W("G", "G", "G")), WordNum(W("A", "T", "T"))>>],
-   nostop |-> [aa |-> [k \in 1..64 |-> ProtSyms[((k - 1) % 20) + 1]],
-               starts |-> <<WordNum(W_ATG), WordNum(W("T", "T", "T"))>>]]
-SynNames == {"odd", "nostop"}
-StartVariants ==
-  [atg    |-> <<W_ATG>>,
-   two    |-> <<W("T", "T", "G"), W("A", "A", "A")>>,
-   stop   |-> <<W("T", "A", "A")>>,                                  \* a stop codon as start codon
-   endT   |-> <<W("A", "T", "T"), W("G", "G", "T"), W_ATG>>,           \* start codons ending in T
-   twice  |-> <<W_ATG, W_ATG>>,
-   short  |-> <<<<"A", "T">>>>,                                      \* incomplete: refused
-   long   |-> <<<<"A", "T", "G", "A">>>>,
-   amb    |-> <<W("A", "N", "G")>>,                                  \* ambiguous: refused
-   mixed  |-> <<W_ATG, <<"G">>>>,
-   one    |-> <<<<"G">>>>,                                           \* incomplete: to be refused (finding)
-   ones   |-> <<<<"A">>, <<"T">>, <<"G">>>>]
-GoodStarts == {"atg", "two", "stop", "endT", "twice"}
-BadStarts  == {"short", "long", "amb", "mixed", "one", "ones"}
-MapVariants ==
-  [none  |-> <<>>,
-   one   |-> <<<<W("A", "A", "A"), "W">>>>,
-   stops |-> <<<<W_ATG, "*">>, <<W("T", "A", "A"), "Q">>, <<W("T", "T", "T"), "X">>>>,
-   amb   |-> <<<<W("A", "A", "R"), "K">>>>,                            \* ambiguous codon: refused
-   noaa  |-> <<<<W("A", "A", "A"), "J">>>>]                            \* not an amino acid symbol: refused
-GoodMaps == {"none", "one", "stops"}
-BadMaps  == {"amb", "noaa"}
-
-DefaultTable == WithStarts(LoadDecl(RealText, <<"name", S_Standard>>).val, <<W_ATG>>).val
-RealIds == TableIds(RealText)
-LoadedById == TLCEval([k \in RealIds |-> LoadImpl(RealText, <<"id", k>>)])
-
-\* a table reference: <<"default">>, <<"id", k>>, <<"syn", name>>, <<"starts", ref, variant>>, <<"map", ref, variant>>
-RECURSIVE TableOf(_)
-TableOf(ref) ==
-  CASE ref[1] = "default" -> Ok(DefaultTable)
-    [] ref[1] = "id"      -> LoadedById[ref[2]]
-    [] ref[1] = "syn"     -> Ok(SynTables[ref[2]])
-    [] ref[1] = "starts"  -> LET b == TableOf(ref[2]) IN IF IsOk(b) THEN WithStarts(b.val, StartVariants[ref[3]]) ELSE Rej
-    [] ref[1] = "map"     -> LET b == TableOf(ref[2]) IN IF IsOk(b) THEN WithMappings(b.val, MapVariants[ref[3]]) ELSE Rej
-BaseRefs == {<<"default">>, <<"id", 11>>, <<"syn", "odd">>}
-DerivedRefs == {<<"starts", b, v>> : b \in BaseRefs, v \in GoodStarts \cup BadStarts}
-          \cup {<<"map", b, v>> : b \in BaseRefs, v \in GoodMaps \cup BadMaps}
-          \cup {<<"map", <<"starts", <<"default">>, "two">>, "stops">>, <<"starts", <<"map", <<"id", 11>>, "stops">>, "endT">>}
-
-\* constructor cases: dictionary items and start codons
-FullPairs(t) == [k \in 1..64 |-> <<CodonWord(k - 1), t.aa[k]>>]
-Without(pairs, n) == SelectSeq(pairs, LAMBDA p : WordNum(p[1]) # n)
-CtorVariants ==
-  [full     |-> [pairs |-> FullPairs(StdTable), starts |-> <<W_ATG>>],
-   reversed |-> [pairs |-> [k \in 1..64 |-> FullPairs(SynTables.odd)[65 - k]], starts |-> <<W("T", "T", "G"), W_ATG>>],
-   noAAA    |-> [pairs |-> Without(FullPairs(StdTable), 0), starts |-> <<W_ATG>>],
-   noTTT    |-> [pairs |-> Without(FullPairs(StdTable), 63), starts |-> <<W_ATG>>],
-   noCTG    |-> [pairs |-> Without(FullPairs(StdTable), WordNum(W("C", "T", "G"))), starts |-> <<W_ATG>>],
-   noTwo    |-> [pairs |-> Without(Without(FullPairs(StdTable), 17), 5), starts |-> <<W_ATG>>],
-   empty    |-> [pairs |-> <<>>, starts |-> <<W_ATG>>],
-   ambKey   |-> [pairs |-> FullPairs(StdTable) \o <<<<W("A", "N", "A"), "K">>>>, starts |-> <<W_ATG>>],
-   start2   |-> [pairs |-> FullPairs(StdTable), starts |-> <<<<"A", "T">>>>],
-   start4   |-> [pairs |-> FullPairs(StdTable), starts |-> <<W_ATG, <<"A", "T", "G", "G">>>>],
-   startN   |-> [pairs |-> FullPairs(StdTable), starts |-> <<W("N", "T", "G")>>],
-   start1   |-> [pairs |-> FullPairs(StdTable), starts |-> <<<<"A">>>>]]
-CtorNames == DOMAIN CtorVariants
-
-(* ---------------------------------------------------------------- synthetic table files *)
-Chars_Alpha == <<"A", "l", "p", "h", "a">>
-Chars_AlphaTwo == <<"A", "l", "p", "h", "a", " ", "T", "w", "o">>
-Chars_Beta == <<"B", "e", "t", "a">>
-Chars_Gamma == <<"G", "a", "m", "m", "a", ",", " ", "x">>
-Chars_Al == <<"A", "l">>
-Chars_Delta == <<"D", "e", "l", "t", "a">>
-\* column orders: the order of the NCBI file (T C A G nested), the order of the codon numbers, and that reversed
-ColsFile == LET o == <<3, 1, 0, 2>> IN
-            [i \in 1..64 |-> Num(<<o[((i - 1) \div 16) + 1], o[(((i - 1) % 16) \div 4) + 1], o[((i - 1) % 4) + 1]>>)]
-ColsNum  == [i \in 1..64 |-> i - 1]
-ColsRev  == [i \in 1..64 |-> 64 - i]
-SynBlocks ==
-  <<[names |-> <<Chars_Alpha>>, id |-> 1, cols |-> ColsFile, t |-> SynTables.odd, order |-> <<1, 2, 3, 4, 5>>,
-     width |-> 7, sep |-> <<";", " ">>, trail |-> 0],
-    [names |-> <<Chars_AlphaTwo, Chars_Beta>>, id |-> 11, cols |-> ColsNum, t |-> StdTable, order |-> <<3, 4, 5, 1, 2>>,
-     width |-> 5, sep |-> <<";">>, trail |-> 2],
-    [names |-> <<Chars_Gamma, Chars_Al, Chars_Delta>>, id |-> 2, cols |-> ColsRev, t |-> SynTables.nostop, order |-> <<5, 1, 4, 2, 3>>,
-     width |-> 9, sep |-> <<" ", ";", " ", " ">>, trail |-> 0]>>
-IntText(n) == IF n < 10 THEN <<Digits[n + 1]>> ELSE <<Digits[(n \div 10) + 1], Digits[(n % 10) + 1]>>
-Blanks(k) == [i \in 1..k |-> " "]
-Join(parts, sep) == FoldLeft(LAMBDA acc, k : IF k = 1 THEN parts[1] ELSE acc \o sep \o parts[k], <<>>, [k \in DOMAIN parts |-> k])
-RenderBlock(b) ==
-  LET cw(i) == CodonWord(b.cols[i])
-      data == <<[i \in 1..64 |-> AaOf(b.t, b.cols[i])],
-                [i \in 1..64 |-> IF b.cols[i] \in StartSet(b.t) THEN "i" ELSE "-"],
-                [i \in 1..64 |-> cw(i)[1]], [i \in 1..64 |-> cw(i)[2]], [i \in 1..64 |-> cw(i)[3]]>>
-      line(k) == DataLabels[k] \o Blanks(b.width - Len(DataLabels[k])) \o data[k] \o Blanks(b.trail)
-  IN <<S_name \o <<" ">> \o Join(b.names, b.sep), S_id \o <<" ">> \o IntText(b.id)>>
-     \o [k \in 1..5 |-> line(b.order[k])]
-HeadLines == <<<<"#", " ", "t", "e", "s", "t">>, <<"#">>, <<>>>>
-\* layout = <<order of blocks, empty lines between blocks, head comment?, empty strings at the end of split("\n")>>
-Render(layout) ==
-  LET blocks == [k \in DOMAIN layout[1] |-> RenderBlock(SynBlocks[layout[1][k]])]
-      gap == [i \in 1..layout[2] |-> <<>>]
-      body == FoldLeft(LAMBDA acc, k : IF k = 1 THEN blocks[1] ELSE acc \o gap \o blocks[k], <<>>, [k \in DOMAIN blocks |-> k])
-  IN (IF layout[3] THEN HeadLines ELSE <<>>) \o body \o [i \in 1..layout[4] |-> <<>>]
-BlockOrders == {<<1>>, <<2>>, <<3>>, <<1, 2>>, <<2, 1>>, <<1, 3>>, <<3, 1>>, <<2, 3>>, <<3, 2>>,
-                <<1, 2, 3>>, <<1, 3, 2>>, <<2, 1, 3>>, <<2, 3, 1>>, <<3, 1, 2>>, <<3, 2, 1>>}
-Layouts == {<<o, g, h, e>> : o \in BlockOrders, g \in {1, 2}, h \in BOOLEAN, e \in {0, 1}}
-SynKeys == {<<"id", k>> : k \in {0, 1, 2, 11, 12, 21}}
-      \cup {<<"name", nm>> : nm \in {Chars_Alpha, Chars_AlphaTwo, Chars_Beta, Chars_Gamma, Chars_Al, Chars_Delta,
-                                      <<"A", "l", "p", "h">>, <<"a", "l", "p", "h", "a">>, <<"T", "w", "o">>,
-                                      Chars_AlphaTwo \o <<";">> \o Chars_Beta, <<"G", "a", "m", "m", "a">>, <<"x">>, <<"1">>}}
-\* keys for the real file: every id and name it holds, and keys it does not hold
-RealKeys == {<<"id", k>> : k \in RealIds \cup {0, 7, 8, 17, 32, 111}}
-       \cup {<<"name", nm>> : nm \in SeqSet(TableNames(RealText))}
-       \cup {<<"name", nm>> : nm \in {<<"s", "t", "a", "n", "d", "a", "r", "d">>, S_Standard \o <<" ">>, <<"S", "t", "a", "n", "d">>,
-                                      <<"M", "i", "t", "o", "c", "h", "o", "n", "d", "r", "i", "a", "l">>, <<"1">>, <<"B", "a", "c", "t", "e", "r", "i", "a", "l">>}}
-TextOf(tr) == IF tr[1] = "real" THEN RealText ELSE Render(tr[2])
-
-(* ---------------------------------------------------------------- what is observed of a table *)
-AllRows == [k \in 1..64 |-> ToCodon(k - 1)]
-\* probes that must be refused: <<kind, argument>>
-BadProbes == <<<<"word", <<"A", "N", "G">>>>, <<"word", <<"A", "T">>>>, <<"word", <<"A", "T", "G", "A">>>>, <<"word", <<>>>>,
-               <<"word", <<"R", "Y", "N">>>>, <<"code", <<1, 2>>>>, <<"code", <<0, 1, 2, 3>>>>, <<"code", <<>>>>,
-               <<"map", <<<<0, 3>>, <<1, 1>>>>>>, <<"map", <<<<0, 1, 2, 3>>>>>>>>
-ProbeOutcome(t, p) ==
-  CASE p[1] = "word" -> AaOfWord(t, p[2]).oc
-    [] p[1] = "code" -> AaCodeOfCode(t, p[2]).oc
-    [] p[1] = "map"  -> MapCodonCodes(t, p[2]).oc
-Obs(t) ==
-  [aaOf        |-> [k \in 1..64 |-> AaOfWord(t, CodonWord(k - 1)).val],
-   codonsOf    |-> [k \in DOMAIN ProtSyms |-> CodonsOfAa(t, ProtSyms[k])],
-   aaCodeOf    |-> [k \in 1..64 |-> AaCodeOfCode(t, ToCodon(k - 1)).val],
-   codonsOfCode |-> [k \in DOMAIN ProtSyms |-> CodonsOfAaCode(t, k - 1)],
-   map         |-> MapCodonCodes(t, AllRows).val,
-   mapEmpty    |-> MapCodonCodes(t, <<>>).val,
-   dictSyms    |-> CodonDictSyms(t),
-   dictCodes   |-> CodonDictCodes(t),
-   starts      |-> StartSet(t),
-   isStart     |-> IsStartCodon(t, AllRows),
-   strEntries  |-> StrEntries(t),
-   eqRebuilt   |-> TRUE,                 \* == a table built from codon_dict() and start_codons(); eval(repr(table))
-   eqChanged   |-> FALSE,                \* == the table with one mapping changed / with another start codon set / 3
-   probes      |-> [k \in DOMAIN BadProbes |-> ProbeOutcome(t, BadProbes[k])]]
-Proj(r) == IF IsOk(r) THEN [oc |-> "ok", aa |-> r.val.aa, starts |-> StartSet(r.val)] ELSE [oc |-> "Rejected", aa |-> <<>>, starts |-> {}]
 
 (* ---------------------------------------------------------------- cases *)
 Tables4 == {<<"default">>, <<"id", 1>>, <<"id", 11>>, <<"id", 27>>, <<"syn", "odd">>}
@@ -206,7 +56,7 @@ Eval(c) ==
          [ctor |-> m.oc, amb |-> IF IsOk(m) THEN <<m.val.amb>> ELSE <<>>, text |-> IF IsOk(m) THEN m.val.syms ELSE <<>>,
           complete |-> IF IsOk(m) THEN Translate(m.val, TRUE, DefaultTable, FALSE) ELSE Rej,
           orfs |-> IF IsOk(m) THEN Translate(m.val, FALSE, DefaultTable, FALSE) ELSE Rej]
-    [] c[1] = "load"  -> Proj(LoadImpl(TextOf(c[2]), c[3]))
+    [] c[1] = "load"  -> Bind(TextOf(c[2]), LAMBDA text : Proj(LoadImpl(text, c[3])))
     [] c[1] = "names" -> TableNames(TextOf(c[2]))
     [] c[1] = "text"  -> IF c[2][1] = "real" THEN <<>> ELSE Render(c[2][2])
     [] c[1] = "table" -> LET r == TableOf(c[2]) IN IF IsOk(r) THEN [oc |-> "ok", obs |-> <<Obs(r.val)>>] ELSE [oc |-> "Rejected", obs |-> <<>>]
@@ -214,7 +64,8 @@ Eval(c) ==
     [] c[1] = "variants" -> [starts |-> StartVariants, maps |-> MapVariants, ctor |-> CtorVariants,
                              syn |-> [nm \in SynNames |-> [pairs |-> FullPairs(SynTables[nm]),
                                                            starts |-> [i \in DOMAIN SynTables[nm].starts |-> CodonWord(SynTables[nm].starts[i])]]],
-                             probes |-> BadProbes]
+                             probes |-> BadProbes, loadkeys |-> LoadKeys, probeDna |-> ProbeDna,
+                             forms |-> <<CodonCodeForms, AaCodeForms, MapForms>>]
     [] c[1] = "pin"   -> Proj(LoadImpl(RealText, <<"id", 1>>))
 
 Compute == phase = 0 /\ phase' = 1 /\ res' = Eval(inp) /\ UNCHANGED inp
@@ -232,10 +83,10 @@ InvSeq ==
     /\ (res.ctor = "ok" /\ res.amb = <<FALSE>>) => (res.orfs.oc = "ok" /\ (res.complete.oc = "ok") = (Len(inp[2]) % 3 = 0))
 InvLoad ==
   Done("load") =>
-    LET text == TextOf(inp[2]) IN
-    /\ Proj(LoadDecl(text, inp[3])) = res
-    \* a table is found exactly for the ids and names the file holds; what is found is a table
-    /\ (res.oc = "ok") = (IF inp[3][1] = "id" THEN inp[3][2] \in TableIds(text) ELSE InSeq(TableNames(text), inp[3][2]))
+    Bind(TextOf(inp[2]), LAMBDA text :
+      /\ Proj(LoadDecl(text, inp[3])) = res
+      \* a table is found exactly for the ids and names the file holds
+      /\ (res.oc = "ok") = (IF inp[3][1] = "id" THEN inp[3][2] \in TableIds(text) ELSE InSeq(TableNames(text), inp[3][2])))
 InvText == Done("text") => Dom_TableText(TextOf(inp[2]))
 InvNames == Done("names") => \A i, j \in DOMAIN res : res[i] = res[j] => i = j
 InvTable ==
